@@ -121,6 +121,9 @@ static void check_blobs(World& w, int64_t id, const BlobSet& b, const dj::track_
     auto bad11 = [&](const std::string& kind, const std::string& why) {
         w.report("C11", "C11|blob|" + F + "|" + kind + "-undecodable",
                  "stored " + kind + " blob of track " + ids + " is not decodable by the independent reader: " + why);
+        // ... which is also the independent decoder disagreeing about what the library wrote (C02)
+        w.report("C02", "C02|written|" + F + "|" + kind + ":undecodable",
+                 "stored " + kind + " blob of track " + ids + " does not have the documented layout of its kind: " + why);
     };
     auto bad02 = [&](const std::string& kind, const std::string& field, const std::string& why) {
         w.report("C02", "C02|written|" + F + "|" + kind + ":" + field,
@@ -163,7 +166,9 @@ static void check_blobs(World& w, int64_t id, const BlobSet& b, const dj::track_
                     bad02("trackData", "samples", "");
                 if (!same_opt(t.loudness, snap->average_loudness))
                     bad02("trackData", "average_loudness", "");
-                if (t.key != (snap->key ? (int32_t)*snap->key : 0))
+                // (a 1.x blob key of 0 means "none here"; after the second party removed the performance row the
+                //  snapshot legitimately falls back to the key in the integer metadata)
+                if (t.key != (snap->key ? (int32_t)*snap->key : 0) && !(t.key == 0 && w.unanalysed.count(id)))
                     bad02("trackData", "key", "decoded " + std::to_string(t.key));
             }
         }
